@@ -15,10 +15,22 @@ from . import core
 SEPARATORS = [".", "->", "__", "/"]
 
 
+STYLE = [0]
+
+
 def label_text(lab, sep):
-    """label 0 is the empty string; the others contain every separator except the one in use"""
+    """label 0 is the empty string.  Three ways of spelling the others, taken in turn:
+    0: the even labels contain every separator except the one in use;
+    1: label 2 is spelt like a two-level flat key of *another* separator ("L1.L1" under "/"), so the
+       same key text is met under different separators within one process;
+    2: text that is not in Unicode normal form (a combining accent, the Angstrom sign)"""
     if lab == 0:
         return ""
+    if STYLE[0] == 1:
+        other = "." if sep != "." else "/"
+        return "L1" if lab == 1 else "L1%sL1" % other
+    if STYLE[0] == 2:
+        return "cafe\u0301%d" % lab if lab == 1 else "\u212b%d" % lab
     others = "".join("<%s>" % s for s in SEPARATORS if s != sep and sep not in s and s not in sep)
     return "L%d%s" % (lab, others if lab % 2 == 0 else "")
 
@@ -150,6 +162,7 @@ def main(chk):
                 continue
             seps = [SEPARATORS[0]] + chk.rng.sample(SEPARATORS[1:], nseps - 1)
             for sep in seps:
+                STYLE[0] = (len(events) // 2) % 3
                 ev = run_case(st["tree"], bool(st["relaxed"]), st["order"], sep, labels, chk.rng)
                 ev.update({"id": len(events) + 1, "tree": st["tree"], "order": st["order"], "sep": sep})
                 events.append(ev)
